@@ -3825,7 +3825,14 @@ impl Lexer<'_> {
                     let rem_text = self.cursor.as_str();
 
                     if rem_text.len() < ending_len {
-                        // Not enough characters left to match the ending
+                        // Not enough characters left to match the ending.
+                        // Whatever is left is data, and the ending is missing
+                        while let Some(c) = self.cursor.advance() {
+                            if c == '\n' {
+                                self.add_line();
+                            }
+                        }
+
                         // Emit error, but assume that we found the ending
                         self.emit_error(ErrorKind::UnterminatedDatalines);
                         break;
